@@ -853,6 +853,17 @@ MUTANTS = [
             }""", """            while (this->get_table() == this->my_embedded_table) {
                 backoff.pause();
             }""")]),
+    dict(name='c11-seed3-failure-tag-checked-only-after-enable', prop='C11', clause='D8', edits=[('include/oneapi/tbb/detail/_segment_table.h', """                enable_segment(segment, table, seg_index, index);
+            }
+            // Check if an exception was thrown during segment allocation
+            if (segment == segment_allocation_failure_tag) {
+                throw_exception(exception_id::bad_alloc);
+            }""", """                enable_segment(segment, table, seg_index, index);
+                // Check if an exception was thrown during segment allocation
+                if (segment == segment_allocation_failure_tag) {
+                    throw_exception(exception_id::bad_alloc);
+                }
+            }""")]),
     # ---------------------------------------------------------------- C12
     dict(name='c12-cas-before-set_next', prop='C12', clause='D1', edits=[
         (CUB_H, "        new_node->set_next(current_next_node);\n        return prev_node->try_set_next(current_next_node, new_node);",
@@ -1160,6 +1171,13 @@ BENIGN = [
         "        Index end = (last - first - Index(1)) / step + Index(1);", "        Index end = Index((last - first) / step + Index((last - first) % step != 0));")]),
     dict(name='c05-b-split-point-from-end', prop='C05', edits=[('include/oneapi/tbb/blocked_range.h',
         "        Value middle = r.my_begin + (r.my_end - r.my_begin) / 2u;", "        Value middle = r.my_end - (r.my_end - r.my_begin + 1u) / 2u;")]),
+    dict(name='c11-b-tag-check-as-greater-than', prop='C11', edits=[('include/oneapi/tbb/detail/_segment_table.h', """            if (segment == segment_allocation_failure_tag) {
+                throw_exception(exception_id::bad_alloc);
+            }
+        } else {""", """            if (!(segment > segment_allocation_failure_tag)) {
+                throw_exception(exception_id::bad_alloc);
+            }
+        } else {""")]),
     dict(name='c05-b-ratio-operands-commuted', prop='C05', edits=[('include/oneapi/tbb/blocked_range2d.h',
         "        if ( my_rows.size()*double(my_cols.grainsize()) < my_cols.size()*double(my_rows.grainsize()) ) {",
         "        if ( double(my_cols.grainsize())*my_rows.size() < double(my_rows.grainsize())*my_cols.size() ) {")]),
